@@ -28,9 +28,10 @@ def h_map(I, job):
     probe = I.named('probe', 64); pt = I.term(probe, 64)
     if bound: I.assume(z3.ULT(pt, bound + 3))
     out = [I.new_obj(4, nm, 'heap') for nm in ('gx', 'gy', 'nx', 'ny')]; sz = I.new_obj(8, 'size', 'heap')
-    I.call('@verif_map_split', [job.get('split', 0xffffffff)])
+    I.call('@verif_map_split', [job.get('split', 0xffffffff)]); I.call('@verif_map_clear', [int(bool(job.get('clear')))])
     rc = I.concretize(I.call('@verif_map', [kind, im, xy, n, probe] + out + [sz]), 'rc'); I.observe('rc', rc)
-    I.call('@verif_map_split', [0xffffffff])
+    I.call('@verif_map_split', [0xffffffff]); I.call('@verif_map_clear', [0])
+    if job.get('clear'): ids, xs, ys = ids[job['split']:], xs[job['split']:], ys[job['split']:]; n = len(ids)        # model: clear() forgets the first series
     gx, gy, nx, ny = [I.term(I.load(o, i32), 32) for o in out]
     member = z3.Or([pt == d for d in ids] + [z3.BoolVal(False)])
     val_x = z3.BitVecVal(UNDEF, 32); val_y = z3.BitVecVal(UNDEF, 32)
@@ -125,6 +126,12 @@ def harnesses(tier):
                                                           dict(kind=1, n=3, split=2), dict(kind=1, n=3, split=1), dict(kind=5, n=3, split=2), dict(kind=2, n=3, split=2), dict(kind=0, n=3, split=2, idbound=8)],
                       desc='%d insertions with distinct symbolic ids (any order) + sort, then get()/get_noexcept() of a symbolic id on DenseMemArray, SparseMemArray, FlexMem (sparse, switched to dense, dense), SparseMemMap: exactly the inserted value for inserted ids, not found / empty otherwise; also with the insertions split into two series, each followed by sort(), with a lookup in between' % N,
                       bounds='%d insertions; 64-bit ids for the sparse kinds, ids < 10 / < 8 for the dense kinds (vector indexed by id)' % N, testgen=lambda rnd: [dict(_job=3, **t) for t in gen(2, 8)(rnd)], wall=900, step_cap=20_000_000))
+    hs.append(Harness('map_clear', 'maps', h_map, jobs=[dict(kind=0, n=3, split=2, clear=1, idbound=8), dict(kind=1, n=3, split=2, clear=1), dict(kind=2, n=3, split=1, clear=1), dict(kind=4, n=2, split=1, clear=1, idbound=8), dict(kind=5, n=3, split=2, clear=1)],
+                      desc='clear() between two series of insertions (first series + sort + lookup, clear(), second series + sort) on DenseMemArray, SparseMemArray, FlexMem (sparse and dense), SparseMemMap: afterwards the map holds exactly the second series; an id of the first series reads as not found / the empty value, also when the second series makes a dense array grow past it',
+                      bounds='2 + 1 or 1 + 1 insertions with distinct symbolic ids; ids < 8 for the dense kinds', testgen=lambda rnd: [dict(_job=0, **t) for t in gen(3, 8)(rnd)], wall=900, step_cap=20_000_000))
+    hs.append(Harness('mmap_clear', 'maps', h_map, jobs=[dict(kind=6, n=3, split=2, clear=1, idbound=8), dict(kind=6, n=2, split=1, clear=1, idbound=8), dict(kind=7, n=3, split=2, clear=1)], defs=('OSMCODE_LIBOSMIUM_VERIF', 'OSMCODE_LIBOSMIUM_VERIF_MMAP_VECTOR_SIZE_INCREMENT=4'),
+                      desc='the same clear() history on DenseMmapArray and SparseMmapArray (anonymous mappings, growth step lowered to 4 elements through the guarded hook): slots of the first series that stay inside the mapping must read as not found after clear(), also when the second series grows the array past them',
+                      bounds='2 + 1 or 1 + 1 insertions, ids < 8 for the dense array', testgen=lambda rnd: [dict(_job=0, **t) for t in gen(3, 8)(rnd)], wall=900, step_cap=20_000_000))
     hs.append(Harness('flexmem_auto_switch', 'maps', h_map, jobs=[dict(kind=2, n=3, idbound=10 if q else 12)], defs=('OSMCODE_LIBOSMIUM_VERIF', 'OSMCODE_LIBOSMIUM_VERIF_FLEXMEM_MIN_DENSE_ENTRIES=3'),
                       desc='FlexMem with the automatic switch from the sparse to the dense index reachable (guarded hook: threshold 3 entries instead of 2^24 - 1): %d insertions with distinct symbolic ids, the third or a later one triggers switch_to_dense() when the largest id is below three times the number of entries; lookups afterwards agree with the map model (the entry that triggers the switch included)' % 3,
                       bounds='3 insertions (4 do not finish in 15 minutes), ids < %d; threshold lowered through OSMCODE_LIBOSMIUM_VERIF_FLEXMEM_MIN_DENSE_ENTRIES' % (10 if q else 12), testgen=lambda rnd: [dict(_job=0, **t) for t in gen(3, 10)(rnd)], wall=900, step_cap=20_000_000))
